@@ -47,6 +47,15 @@ class World:
         self.faults = {}  # (sock name, op) -> list of errno-or-None consumed per call
         self.observe_time = False  # time() is a scheduling point only when clock events exist
         self.sticky = (errno.ECONNRESET, errno.EPIPE, errno.ENOTCONN, errno.ESHUTDOWN, errno.ECONNABORTED)
+        # calls that would have blocked the calling thread in the kernel because the descriptor was left
+        # in blocking mode: (object, operation, thread).  Reported by every driver as a violation.
+        self.blocked = []
+
+    def would_block(self, obj, op):
+        self.blocked.append((getattr(obj, "name", None) or f"fd{getattr(obj, 'fd', '?')}", op, self.sched.me_name()))
+        esc = getattr(self, "escaped", None)
+        if esc is not None:
+            esc.append(("VSock", "BlockingCall", f"{op} on a descriptor left in blocking mode would block the thread"))
 
     def alloc_fd(self, obj):
         fd = self.next_fd
@@ -92,6 +101,7 @@ class VSock:
         self.sndbuf = 65536
         self.recv_calls = 0
         self.send_calls = 0
+        self.blocking = True  # as a new socket is; waitress must switch it off before using it in the loop
         self.fd = w.alloc_fd(self)
 
     def __getstate__(self):
@@ -149,6 +159,7 @@ class VSock:
 
     def setblocking(self, flag):
         self._enter("setblocking")
+        self.blocking = bool(flag)
 
     def getsockopt(self, level, opt, buflen=None):
         self._enter("getsockopt")
@@ -174,6 +185,8 @@ class VSock:
     def accept(self):
         self._enter("accept")
         if not self.backlog:
+            if self.blocking:
+                self.w.would_block(self, "accept")
             raise BlockingIOError(errno.EWOULDBLOCK, "would block")
         conn = self.backlog.popleft()
         self.w.ev("accept", conn.name)
@@ -192,6 +205,8 @@ class VSock:
         if self.eof:
             self.w.ev("recv", (self.name, 0))
             return b""
+        if self.blocking:
+            self.w.would_block(self, "recv")
         raise BlockingIOError(errno.EWOULDBLOCK, "would block")
 
     def send(self, data):
@@ -204,6 +219,9 @@ class VSock:
         if self.window is not None:
             n = min(n, self.window)
         n = self.w.sched.send_size(self, n)
+        if self.blocking and n < len(data):
+            # a blocking send() does not return before everything has been taken
+            self.w.would_block(self, "send")
         if n <= 0:
             raise BlockingIOError(errno.EWOULDBLOCK, "would block")
         if self.window is not None:
@@ -244,6 +262,15 @@ class VPipeEnd:
         self.kind = kind  # "r" | "w"
         self.fd = w.alloc_fd(self)
         self.closed = False
+        self.flags = {"blocking": True}  # file status flags live in the open file description: shared by dup()
+
+    @property
+    def blocking(self):
+        return self.flags["blocking"]
+
+    @blocking.setter
+    def blocking(self, v):
+        self.flags["blocking"] = v
 
     def readable_now(self):
         return self.kind == "r" and self.pipe.count > 0
@@ -272,11 +299,14 @@ class VOs:
         o = W.fds.get(fd)
         if not isinstance(o, VPipeEnd):
             raise OSError(errno.EBADF, "Bad file descriptor")
-        return VPipeEnd(W, o.pipe, o.kind).fd
+        n = VPipeEnd(W, o.pipe, o.kind)
+        n.flags = o.flags
+        return n.fd
 
     def set_blocking(self, fd, flag):
         if fd not in W.fds:
             raise OSError(errno.EBADF, "Bad file descriptor")
+        W.fds[fd].blocking = bool(flag)
 
     def close(self, fd):
         W.sched.point("os.close", fd)
@@ -292,6 +322,8 @@ class VOs:
         if not isinstance(o, VPipeEnd):
             raise OSError(errno.EBADF, "Bad file descriptor")
         if o.pipe.count == 0:
+            if o.blocking:
+                W.would_block(o, "pipe.read")
             raise BlockingIOError(errno.EAGAIN, "would block")
         k = min(n, o.pipe.count)
         o.pipe.count -= k
